@@ -102,7 +102,7 @@ func init() {
 		if tp != vanguard.ProtocolREST {
 			trailers = c05Pick(c, "trailer", 2)
 		}
-		style := c.Choose("trailer-style", 3) // 0 TrailerPrefix, 1 declared (canonical), 2 declared in lower case
+		style := c.Choose("trailer-style", 4) // 0 TrailerPrefix, 1 declared (canonical, one per line), 2 declared in lower case, 3 declared as one "A, B" list
 		dup := false
 		for _, t := range trailers {
 			for _, h := range respH {
@@ -114,7 +114,7 @@ func init() {
 		if dup {
 			c.Attr("same-key-as-header-and-trailer", "true")
 		}
-		c.Attr("trailer-style", []string{"prefix", "declared", "declared"}[style])
+		c.Attr("trailer-style", []string{"prefix", "declared", "declared", "declared"}[style])
 		isErr := c.Choose("outcome", 2) == 1
 		req, resp := defaultMsgs(b.Client.shape)
 		call := &mxCall{Base: b, ReqMsgs: req, RespMsgs: resp, ReqHeader: kvHeader(reqH), RespHeader: kvHeader(respH), RespTrailer: kvHeader(trailers), Lenient: true}
@@ -125,10 +125,11 @@ func init() {
 		}
 		if style > 0 {
 			call.DeclTrailers = true
-			if style == 2 {
+			if style >= 2 {
 				call.Mutate = func(sr *wire.ServerResp, rep *world.Reply) {
 					if sr == nil {
-						rep.LowerCaseTrailerDecl = true
+						rep.LowerCaseTrailerDecl = style == 2
+						rep.TrailerDeclList = style == 3
 					}
 				}
 			}
